@@ -70,6 +70,8 @@ impl<'a, T: Read + Write + Seek> PointCloudWriter<'a, T> {
 
         // Calculate max number of points per packet
         let max_points_per_packet = get_max_packet_points(&prototype);
+        #[cfg(e57_verif)]
+        let max_points_per_packet = crate::verif::cap_packet_points(max_points_per_packet);
 
         // Prepare byte stream buffers
         let byte_streams = vec![ByteStreamWriteBuffer::new(); prototype.len()];
